@@ -76,6 +76,9 @@ func (sc *rscenario) build(fs []fspec, seed int) {
 			masked = false
 		}
 		mask := [4]byte{byte(17*i + seed + 1), byte(31*i + 7), byte(seed * 3), byte(0x80 + i)}
+		if (i+seed)%3 == 1 {
+			mask = [4]byte{} // the all-zero key is a legal mask (and follows frames with other keys)
+		}
 		pay := f.Pay
 		if f.CodedN > 0 {
 			pay = vh.PBytes(0, base, base+f.CodedN)
